@@ -178,7 +178,7 @@ func mainRun(bin, scratch string, idx int, c mainCase) (mainObs, mainSetup, erro
 		time.Sleep(30 * time.Millisecond)
 		// bring the healthy run into the state in which the operator ends it
 		var conn net.Conn
-		if m := reListen.FindSubmatch(p.Output()); m != nil && (c.Sst == "half" || c.Sst == "shell" || c.Sst == "muted") {
+		if m := reListen.FindSubmatch(p.Output()); m != nil && (c.Sst == "half" || c.Sst == "shell" || c.Sst == "muted" || c.Sst == "flood") {
 			if conn, err = dialTLS(string(m[1])); err == nil {
 				defer conn.Close()
 				if c.Sst == "half" {
@@ -197,6 +197,26 @@ func mainRun(bin, scratch string, idx int, c mainCase) (mainObs, mainSetup, erro
 		case "typed":
 			p.Type([]byte("half a line"))
 			time.Sleep(30 * time.Millisecond)
+		case "flood":
+			if conn != nil {
+				stop := make(chan struct{})
+				defer close(stop)
+				go func(c net.Conn) {
+					chunk := strings.Repeat("flooding the terminal with shell output\n", 20)
+					for {
+						select {
+						case <-stop:
+							return
+						default:
+						}
+						c.SetWriteDeadline(time.Now().Add(time.Second))
+						if _, err := fmt.Fprintf(c, "%x\r\n%s\r\n", len(chunk), chunk); err != nil {
+							return
+						}
+					}
+				}(conn)
+				time.Sleep(60 * time.Millisecond)
+			}
 		}
 		if c.How == "ctrl-c" {
 			p.Type([]byte{3})
@@ -224,7 +244,27 @@ func mainRun(bin, scratch string, idx int, c mainCase) (mainObs, mainSetup, erro
 	return o, su, nil
 }
 
+// quitLeg model-checks the exit of a healthy run on the composition of the output path with the
+// operator's terminal (Curlrevshell.tla): once the operator has ended the program the broker must
+// still finish, however full the operator channel is.  The design as found is kept and refuted.
+func quitLeg(r *ev.Run) {
+	res, err := tlcrun.Run(tlcrun.Opts{Module: "Curlrevshell", Config: "Curlrevshell_quit", Workers: 8, Timeout: 10 * time.Minute})
+	if err != nil || res.TimedOut || res.Violated != "" || !res.OK {
+		r.Inconclusive("TLC Curlrevshell_quit: err=%v violated=%q\n%s", err, resViolated(res), tail(res))
+		return
+	}
+	r.Add("states", res.Distinct)
+	r.Append("tlc_invariants_checked", "Curlrevshell_quit (fairness): EndsAfterQuit")
+	res2, err := tlcrun.Run(tlcrun.Opts{Module: "Curlrevshell", Config: "Curlrevshell_quit_asfound", Workers: 8, Timeout: 10 * time.Minute})
+	if res2 != nil && (strings.Contains(res2.Violated, "EndsAfterQuit") || strings.Contains(strings.Join(res2.Tail, "\n"), "EndsAfterQuit")) {
+		r.Set("tlc_refutes_design_without_drain", "Curlrevshell_quit_asfound.cfg (nobody receives from the operator channel after the shell has returned): EndsAfterQuit violated")
+	} else {
+		r.Inconclusive("Curlrevshell_quit_asfound.cfg: TLC did not refute EndsAfterQuit for the design as found (err=%v violated=%q)", err, resViolated(res2))
+	}
+}
+
 func mainCampaign(r *ev.Run) {
+	quitLeg(r)
 	scratch, err := os.MkdirTemp(os.Getenv("VERIF_SCRATCH"), "main-")
 	if err != nil {
 		r.Inconclusive("%v", err)
@@ -395,7 +435,7 @@ func mainCampaign(r *ev.Run) {
 	r.Set("impossible_combinations_skipped", nskip)
 	r.Set("agree_with_code_order", agree)
 	r.Set("exhaustive", true)
-	r.Rule("TLC enumerates every fault set of size <= 2 over {unopenable log, listen address bad syntax / in use / unassignable, cache damaged / unwritable, missing Ctrl+I source, -icanhazip offline} x informational flag x TTY yes/no x exit by Ctrl+C / Ctrl+D (for fault-free runs in each of the states idle, one stream attached, shell attached, shell attached and muted, half a line typed) from Main.tla and emits the allowed outcomes; each is created for real (scratch files, bound ports, pty or no terminal) and run with the real binary: exit status, text (no panic / trace), the message names a cause that is present, termios before start == after exit; non-trivial = distinct configurations with a fault or without TTY")
+	r.Rule("TLC enumerates every fault set of size <= 2 over {unopenable log, listen address bad syntax / in use / unassignable, cache damaged / unwritable, missing Ctrl+I source, -icanhazip offline} x informational flag x TTY yes/no x exit by Ctrl+C / Ctrl+D (for fault-free runs in each of the states idle, one stream attached, shell attached, shell attached and muted, half a line typed, shell flooding the terminal) from Main.tla and emits the allowed outcomes; each is created for real (scratch files, bound ports, pty or no terminal) and run with the real binary: exit status, text (no panic / trace), the message names a cause that is present, termios before start == after exit; non-trivial = distinct configurations with a fault or without TTY")
 	r.Assume("faults are the enumerated classes; permission faults are produced with ENOTDIR because the checks run as root")
 	_ = bytes.Contains
 }
